@@ -13,6 +13,10 @@ CHECKS["C20"] = dict(cat="model_checking", design="DESIGN.md §4 C20, Appendix A
    text="TLC checks the Formatters state machine (one action per critical section / process boundary) exhaustively for 3 goroutines: cache accessed only under the lock, each tool probed at most once, formatter run once per request iff present, missing tool = no-op, failing run reported. The real generator.Formatters is then driven by concurrent goroutines with stand-in tools on PATH (all 81 tool configurations, free-running, with gated probes held inside the critical section, and following schedules produced by tlc -simulate); every recorded trace must be a behaviour of the spec (trace validation with inferred lock hand-over, all invariants evaluated in every state). The worker is built with -race; a reported data race is a violation.",
    note="Trusted: TLC; the stand-in executables and O_APPEND log order; the Go race detector for memory-level races (TLA+ cannot see unsynchronised accesses). Exhaustive design-level scope: 3 goroutines, 2-3 tools, 1-2 requests each; real executions are sampled schedules, not all interleavings.",
    tech="TLA+ model (Formatters.tla) checked by TLC + trace validation (TraceFormatters.tla) of real concurrent executions, schedules from tlc -simulate replayed through gates, Go race detector")
+CHECKS["C17"] = dict(cat="model_checking", design="DESIGN.md §4 C17",
+   text="TLC checks the Loader model (stat, component-wise common root, load, match back) against 'root is the deepest existing common ancestor, packages in request order' for every request of <=3 files over directories of depth<=2 with names that are character-prefixes of each other, and exports the requests. A seeded sample of them plus fixed witnesses is materialised in scratch modules and handed to the real analysis.LoadSources (absolute and relative paths, duplicates, missing / non-Go / ill-typed files); TLC judges every recorded call.",
+   note="Trusted: TLC; go/packages as the source of 'the package that contains the file'; import path = module path + directory. Real calls are a sample (70 quick / 1200 thorough) of the 9723 enumerated requests.",
+   tech="TLA+ model (Loader.tla) checked by TLC + verdict-style trace validation (TraceLoader.tla) of real LoadSources calls on TLC-enumerated layouts")
 NOT_APPLICABLE = {}
 ALL = ["C%02d" % i for i in range(1, 21)]
 
